@@ -23,6 +23,7 @@ def run(check, ctx):
     repo = ctx.repo
     fixed_width_rows(check, repo)
     roundtrip_rows(check, repo)
+    ecc_roundtrip_rows(check, repo)
     sec1_toy_rows(check, repo)
     identifier_tables(check, repo)
     pbes2_roundtrip_rows(check, repo, thorough=ctx.tier == "thorough")
@@ -316,6 +317,180 @@ def identifier_tables(check, repo):
     check.ob("K", "K|oid.curves", not wrong, "lib/Crypto/PublicKey/_nist_ecc.py", 1,
              extracted="; ".join(wrong[:3]) if wrong else "%d curves: OID and OpenSSH key type as assigned" % len(STD_CURVES),
              expected="SEC 2 / RFC 5480 2.1.1.1 (NIST curves), RFC 8410 3 (Ed25519, Ed448, X25519, X448), RFC 5656 6.1, RFC 8709 4")
+
+
+_RPOINT_SRC = """
+class _RPoint(object):
+    def __mul__(self, k):
+        r = self.__class__()
+        r.x = self.pub_x
+        r.y = self.pub_y
+        r.xy = (self.pub_x, self.pub_y)
+        r.curve = self.curve
+        r.nbytes = self.nbytes
+        return r
+    def __rmul__(self, k):
+        return self.__mul__(k)
+    def __eq__(self, o):
+        return self.x == o.x and self.y == o.y
+    def __ne__(self, o):
+        return not (self.x == o.x and self.y == o.y)
+    def copy(self):
+        return self
+    def is_point_at_infinity(self):
+        return False
+    def size_in_bytes(self):
+        return self.nbytes
+    def size_in_bits(self):
+        return self.nbytes * 8
+"""
+_RPOINT = []
+
+
+def _rpoint_class():
+    if not _RPOINT:
+        tree = ast.parse(_RPOINT_SRC)
+        c = tree.body[0]
+        for node in ast.walk(tree):
+            for ch in ast.iter_child_nodes(node):
+                ch._parent = node
+        for f in c.body:
+            f._qualname = "_RPoint." + f.name
+        c._qualname = "_RPoint"
+        c._vmethods = dict((f.name, f) for f in c.body if isinstance(f, ast.FunctionDef))
+        _RPOINT.append(c)
+    return _RPOINT[0]
+
+
+def ecc_roundtrip_rows(check, repo):
+    """import_key(export_key(k)) == k for ECC keys on NIST curves in every unencrypted format (DER with and without
+    PKCS#8, PEM, SEC1 compressed and not, raw, OpenSSH public), private and public: EccKey, the writers, the readers, the
+    DER / PEM / PKCS#8 / SPKI code and the point decompression (the repository's Integer arithmetic) are interpreted end
+    to end; the point class is a stand-in that holds coordinates (the constructor's own checks are decided by the C05 /
+    C06 rows) and `G * d` yields the key's public point.  Keys: d = 1, 2 and a scalar with a zero top byte, on P-256
+    and P-521 (66-byte coordinates, structures of 128 bytes and more)."""
+    from .int_table import Backend
+    from ..absval import AClass, AObj
+    from ..par import pmap
+    from .c_ec import read_curves, ref_add
+    from .c05_extra import curve_ids
+    be = Backend(repo, "native")
+    mod = repo.module(ECC)
+    kcls = repo.cls(mod, "EccKey")
+    vcls = _rpoint_class()
+    CUR = read_curves(repo)
+    ids = curve_ids(repo)
+    META = {"p256": ("NIST P-256", "1.2.840.10045.3.1.7", "ecdsa-sha2-nistp256", "P256", ("p256", "NIST P-256", "P-256", "prime256v1", "secp256r1", "nistp256")),
+            "p521": ("NIST P-521", "1.3.132.0.35", "ecdsa-sha2-nistp521", "P521", ("p521", "NIST P-521", "P-521", "prime521v1", "secp521r1", "nistp521"))}
+
+    def mul(k, A, p):
+        R = None
+        while k:
+            if k & 1:
+                R = ref_add(R, A, p) if R is not None else A
+            A = ref_add(A, A, p)
+            k >>= 1
+        return R
+
+    def world(cname, Q):
+        c = CUR[cname]
+        canonical, oid, ssh, idname, names = META[cname]
+        nbytes = (c["p"].bit_length() + 7) // 8
+        it = be.interp()
+        for k in ("DerSequence", "DerInteger", "DerObject", "BytesIO_EOF", "DerOctetString", "DerObjectId", "DerNull", "DerBitString", "DerSetOf", "DerBoolean"):
+            it.extra_models["Crypto.Util.asn1." + k] = False
+        st = State()
+
+        def as_int(i, st2, v):
+            return v if be.is_own(v) else (be.make(i, st2, v) if isinstance(v, int) else v)
+
+        def mk_point(i, st2, x, y):
+            o = i.new_obj(st2, mod, vcls, havoc=False)
+            x, y = as_int(i, st2, x), as_int(i, st2, y)
+            st2.heap[o.ident].update({"x": x, "y": y, "xy": (x, y), "curve": canonical, "nbytes": nbytes,
+                                      "pub_x": be.make(i, st2, Q[0]), "pub_y": be.make(i, st2, Q[1])})
+            return o
+
+        def m_point(i, a, kw, st2, node):
+            if len(a) < 2:
+                return UNK
+            return mk_point(i, st2, a[0], a[1])
+        it.extra_models["Crypto.PublicKey._point.EccPoint"] = m_point
+        it.extra_models["Crypto.PublicKey.ECC.EccPoint"] = m_point
+        G = mk_point(it, st, c["gx"], c["gy"])
+        curve = it.new_obj(st, label="curve", attrs={
+            "p": be.make(it, st, c["p"]), "b": be.make(it, st, c["b"]), "order": be.make(it, st, c["n"]), "Gx": be.make(it, st, c["gx"]), "Gy": be.make(it, st, c["gy"]),
+            "G": G, "modulus_bits": c["p"].bit_length(), "oid": oid, "canonical": canonical, "openssh": ssh, "id": ids[idname], "name": canonical,
+            "is_weierstrass": True, "is_edwards": False, "is_montgomery": False, "validate": None, "rawlib": None, "context": None})
+        it.inject.update({"Integer": AClass(be.mod, be.cls), "_curves": dict((nm, curve) for nm in names)})
+        it.for_limit = 700
+        it.unroll_limit = 3000
+        return it, st, mk_point
+
+    def key_of(st2, obj):
+        h = st2.heap.get(obj.ident, {})
+        d = h.get("_d")
+        pt = h.get("_point")
+        xy = None
+        if isinstance(pt, AObj):
+            ph = st2.heap.get(pt.ident, {})
+            xy = tuple(be.value(st2, v) if be.is_own(v) else v for v in (ph.get("x"), ph.get("y")))
+        return (be.value(st2, d) if be.is_own(d) else d, xy)
+
+    def job(j):
+        cname, d, kw, public = j
+        c = CUR[cname]
+        Q = mul(d, (c["gx"], c["gy"]), c["p"])
+        it, st, mk_point = world(cname, Q)
+        me = it.new_obj(st, mod, kcls, havoc=False)
+        curve = it.inject["_curves"][META[cname][4][0]]
+        st.heap[me.ident].update({"_curve": curve, "curve": META[cname][0], "_d": None if public else be.make(it, st, d), "_seed": None,
+                                  "_point": mk_point(it, st, Q[0], Q[1])})
+        res = it.run(mod, repo.func(mod, "EccKey.export_key"), {"kwargs": dict(kw)}, self_obj=me, state=st)
+        rets = res.returns()
+        if len(rets) != 1 or res.raises() or not isinstance(rets[0].value, (bytes, str)):
+            return "export: %d exits, raises %s" % (len(rets), res.raise_classes())
+        blob = rets[0].value
+        if key_of(rets[0].state, me) != (None if public else d, Q):
+            return "export_key changed the key object itself"
+        it2, st2, _ = world(cname, Q)
+        args = {"encoded": blob, "passphrase": None, "curve_name": META[cname][0] if kw.get("format") in ("raw", "SEC1") else None}
+        res2 = it2.run(mod, repo.func(mod, "import_key"), args, state=st2)
+        r2 = res2.returns()
+        if len(r2) != 1 or not isinstance(r2[0].value, AObj):
+            return "import of the exported key: %d exits, raises %s" % (len(r2), res2.raise_classes())
+        got = key_of(r2[0].state, r2[0].value)
+        if got[1] is None and got[0] is not None:
+            got = (got[0], Q)             # the public point is derived lazily from d (G * d): decided by construct()
+        want = (None if public else d, Q)
+        if got != want:
+            return "the imported key has d = %s, Q = (%s.., %s..) instead of d = %s, Q = (%s.., %s..)" % (
+                got[0], hex(got[1][0])[:10] if got[1] else None, hex(got[1][1])[:10] if got[1] else None, want[0], hex(Q[0])[:10], hex(Q[1])[:10])
+        return None
+    jobs = []
+    for cname in ("p256", "p521"):
+        n = CUR[cname]["n"]
+        for d in (1, 2, (1 << (n.bit_length() - 9)) + 5):
+            for public in (False, True):
+                fmts = [dict(format="DER"), dict(format="PEM"), dict(format="DER", compress=True), dict(format="PEM", compress=True)]
+                if public:
+                    fmts += [dict(format="SEC1"), dict(format="SEC1", compress=True), dict(format="raw"), dict(format="OpenSSH"), dict(format="OpenSSH", compress=True)]
+                else:
+                    fmts += [dict(format="DER", use_pkcs8=False), dict(format="PEM", use_pkcs8=False), dict(format="DER", use_pkcs8=False, compress=True)]
+                if d != 1 and cname == "p521":
+                    fmts = fmts[:3]
+                for kw in fmts:
+                    jobs.append((cname, d, kw, public))
+    errs = pmap(job, jobs)
+    wrong = ["%s, d = %s, %s key, %s: %s" % (j[0], j[1] if j[1] < 10 else "2^%d+5" % (j[1].bit_length() - 1), "public" if j[3] else "private",
+                                                 ", ".join("%s=%s" % kv for kv in sorted(j[2].items())), e) for j, e in zip(jobs, errs) if e]
+    if wrong and len(wrong) == len(jobs):
+        raise AnalysisError("ECC round trips could not be interpreted: %s" % wrong[0])
+    fn = repo.func(mod, "EccKey.export_key")
+    check.ob("K-pw", "K-pw|ecc.roundtrip", not wrong, mod.path, fn.lineno,
+             extracted=("%d of %d rows differ: " % (len(wrong), len(jobs)) + "; ".join(wrong[:3])) if wrong else "%d rows on P-256 and P-521: import_key(export_key(k)) has the same private scalar and public point, in every unencrypted format, compressed or not; export does not modify the key" % len(jobs),
+             expected="RFC 5915 / RFC 5480 / PKCS#8 / SEC 1 / RFC 5656 encodings of an ECC key are read back to the same key")
+    check.count("ecc_roundtrip_rows", len(jobs))
 
 
 def pbes2_roundtrip_rows(check, repo, thorough=False):
